@@ -8,7 +8,7 @@
 use crate::probe::{ProbeSignal, Pulls, TagFrame};
 use dasp_signal::bus::{Bus, Output, SignalBus};
 use dasp_signal::Signal;
-use simcore::{check_eq, Observer, Op, OpSpec, Rng, Scenario, Source, Violation};
+use simcore::{check, check_eq, Observer, Op, OpSpec, Rng, Scenario, Source, Violation};
 
 pub struct BusScenario;
 
@@ -381,7 +381,16 @@ fn drive<F: TagFrame>(src: &mut Source, obs: &mut Observer) -> Result<(), Violat
                 "backlog length after {} (slowest live lag)",
                 OPS[op.k as usize].name
             );
-            check_eq!(obs, b.verif_live_outputs(), m.live().len(), "bus.live-outputs", "registered outputs");
+            // (the property speaks about the backlog, not the registry: an implementation may tidy up
+            // dropped outputs lazily, so only "no live output is missing" is asserted)
+            check!(
+                obs,
+                b.verif_live_outputs() >= m.live().len(),
+                "bus.live-outputs",
+                "registered outputs: {} for {} live ones",
+                b.verif_live_outputs(),
+                m.live().len()
+            );
         }
         let live_n = m.live().len();
         if m.pulled > 32_768 {
